@@ -25,6 +25,9 @@ def c01(B, K, D_, raw, longs=(), bigK=None, bigD=None):
     for dotu in ("false", "true"):
         runs.append({"harness": "vxH01Stat", "args": [dotu, str(B), "0"], "files": F, "raw": raw, "reach": ["ok"], "bounds": f"stat record alone, strings 0..{B}"})
     runs.append({"harness": "vxH01Rread", "args": [str(max(D_, 4))], "files": F, "raw": raw, "reach": ["ok"], "bounds": f"InitRread/SetRreadCount, count 0..{max(D_,4)}"})
+    for (rw, n) in ((True, 5041), (True, 5042), (False, 32767), (False, 32768)) + (((True, 65535), (True, 19), (False, 65535)) if K > 2 else ()):
+        runs.append({"harness": "vxH01BigWalk", "args": ["true" if rw else "false", str(n)], "files": ["api", "ref_wire", "big_c01"], "raw": raw, "reach": ["done"],
+                     "bounds": f"{'Rwalk' if rw else 'Twalk'} with {n} elements (16-bit count whose product with the element size exceeds 16 bits): packs, decodes with the same count and elements; symbolic tag and one symbolic qid"})
     for L in longs:
         for t in (100, 102, 104, 107, 110, 114, 125, 126):
             if L > 60000 and t in (125, 126):
